@@ -3,6 +3,7 @@
 package main
 
 import (
+	"context"
 	"encoding/json"
 	"fmt"
 	"os"
@@ -70,7 +71,8 @@ func mkScenario(sc *scenario) *sched.Scenario {
 			for i, p := range sc.Progs {
 				i, p := i, p
 				specs = append(specs, sched.ThreadSpec{Name: p.Name, Fn: func(t *sched.T) {
-					env.recs[i] = txn.Run(t.Ctx(), p, nil)
+					ctx := context.WithValue(t.Ctx(), txn.StampKey{}, func() int { return t.X().TraceLen() })
+					env.recs[i] = txn.Run(ctx, p, nil)
 				}})
 			}
 			return specs
@@ -429,7 +431,7 @@ func checkExecution(run *ev.Run, prop string, sc *scenario, x *sched.Execution, 
 			}
 		}
 	case "C03":
-		checkC03(viol, sc, env, initial, unique)
+		checkC03(viol, sc, x, env, initial, unique)
 	}
 }
 
@@ -502,6 +504,62 @@ func rootCause(trace []string) string {
 		}
 		last[tid] = i
 	}
+	// commit-install-window-interleaving: a committer's phase 2 first rewrites the registry blocks of all
+	// its nodes (one block write each) and then refreshes the cached handles one by one; it is bracketed by
+	// the write and the removal of its priority log. If another thread ran between the first phase-2
+	// block write and the priority-log removal it could observe a partially installed commit (some nodes /
+	// cached handles new, others old).
+	for i, e := range es {
+		if e.class != "file" || !strings.HasPrefix(e.label, "WriteFile ") || !strings.HasSuffix(e.label, ".plg") {
+			continue
+		}
+		first, end := -1, -1
+		for j := i + 1; j < len(es); j++ {
+			if es[j].tid != e.tid {
+				continue
+			}
+			if es[j].class == "file" && strings.HasPrefix(es[j].label, "Remove ") && strings.HasSuffix(es[j].label, ".plg") {
+				end = j
+				break
+			}
+			if es[j].class == "dio" && strings.HasPrefix(es[j].label, "WriteAt ") && first < 0 {
+				first = j
+			}
+		}
+		if first >= 0 {
+			if end < 0 {
+				end = len(es)
+			}
+			for j := es[first].exec; j < end && j < len(es); j++ {
+				if es[j].tid != e.tid {
+					return "commit-install-window-interleaving"
+				}
+			}
+		}
+	}
+	// stale-storeinfo-cache-fill: same shape for the store-info record: ReadFile storeinfo.txt by t,
+	// WriteFile storeinfo.txt by another thread, then t's SetStruct <folder>:<store>.
+	for i, e := range es {
+		if e.class != "l2" || !strings.HasPrefix(e.label, "SetStruct /") {
+			continue
+		}
+		for j := i - 1; j >= 0; j-- {
+			if es[j].tid != e.tid || es[j].class != "file" || !strings.HasSuffix(es[j].label, "storeinfo.txt") {
+				continue
+			}
+			if strings.HasPrefix(es[j].label, "WriteFile ") {
+				break
+			}
+			if strings.HasPrefix(es[j].label, "ReadFile ") {
+				for _, w := range es {
+					if w.tid != e.tid && w.class == "file" && strings.HasPrefix(w.label, "WriteFile ") && strings.HasSuffix(w.label, "storeinfo.txt") && w.exec > es[j].exec && w.exec <= e.exec {
+						return "stale-storeinfo-cache-fill"
+					}
+				}
+				break
+			}
+		}
+	}
 	for i, e := range es {
 		if e.class != "l2" || !strings.HasPrefix(e.label, "SetStruct ") || len(e.label) != len("SetStruct ")+36 {
 			continue
@@ -535,55 +593,212 @@ func recErr(r *txn.Record) string {
 	return fmt.Sprintf("%s: begin=%q open=%q end=%q aborted=%v results=%v", r.Prog.Name, r.BeginErr, r.OpenErr, r.EndErr, r.Aborted, r.Results)
 }
 
-// checkC03: every value/count a reader returns is the committed state before the writers, or a state
-// produced by writers that (eventually) committed; never a value of a writer that did not commit.
-func checkC03(viol func(kind, detail string), sc *scenario, env *execEnv, initial txn.Model, unique map[string]bool) {
-	// candidate states: initial, and initial + any subset of committed writers applied in any order
-	var writers []*txn.Record
-	for _, r := range env.recs {
-		if r != nil && r.Prog.Mode == sop.ForWriting && r.Committed {
-			writers = append(writers, r)
-		}
+// checkC03: item-level oracle. A value, item or count returned to a reader must come from the committed
+// state before the writers or from a writer whose commit point (its last phase-2 registry block write)
+// had been reached when the call returned. Values of writers that never commit, or of a writer that is
+// still installing its commit, are violations. Stale or mixed-snapshot reads are NOT judged here (C20/C02).
+func checkC03(viol func(kind, detail string), sc *scenario, x *sched.Execution, env *execEnv, initial txn.Model, unique map[string]bool) {
+	cp := commitPoints(x.Trace)
+	type wv struct {
+		rec         *txn.Record
+		tid         int
+		commitPoint int // logical time from which its writes count as committed; -1 = never
 	}
-	var states []txn.Model
-	var gen func(m txn.Model, used []bool)
-	gen = func(m txn.Model, used []bool) {
-		states = append(states, m)
-		for i, w := range writers {
-			if used[i] {
+	var ws []wv
+	for i, r := range env.recs {
+		if r == nil || r.Prog.Mode != sop.ForWriting {
+			continue
+		}
+		w := wv{rec: r, tid: i, commitPoint: -1}
+		if r.Committed {
+			w.commitPoint = r.EndAt
+			if p, ok := cp[i]; ok && p < w.commitPoint {
+				w.commitPoint = p
+			}
+		}
+		ws = append(ws, w)
+	}
+	// value written to (store,key) by writer w, in program order (last write wins within w)
+	writes := func(w wv, store string, k int) (vals []string) {
+		cur := ""
+		have := false
+		for _, in := range initial[store] {
+			if in.K == k {
+				cur, have = in.V, true
+			}
+		}
+		for _, res := range w.rec.Results {
+			o := res.Op
+			if o.Store != store || o.K != k {
 				continue
 			}
-			c := m.Clone()
-			for _, r := range w.Results {
-				c.Apply(r.Op, unique[r.Op.Store])
+			switch o.Kind {
+			case "add", "addif", "update", "upsert":
+				if res.OK {
+					cur, have = o.V, true
+					vals = append(vals, cur)
+				}
+			case "rmw":
+				if res.OK {
+					cur = res.Val + o.V
+					vals = append(vals, cur)
+				}
+			case "remove":
+				have = false
 			}
-			u := append([]bool(nil), used...)
-			u[i] = true
-			gen(c, u)
 		}
+		_ = have
+		return vals
 	}
-	gen(initial.Clone(), make([]bool, len(writers)))
+	judgeItem := func(r *txn.Record, res txn.OpResult, store string, k int, v string) {
+		for _, in := range initial[store] {
+			if in.K == k && in.V == v {
+				return
+			}
+		}
+		for _, w := range ws {
+			for _, wvv := range writes(w, store, k) {
+				if wvv != v {
+					continue
+				}
+				if w.commitPoint >= 0 && w.commitPoint <= res.At {
+					return
+				}
+				if w.commitPoint < 0 {
+					viol("dirty-read", fmt.Sprintf("reader %s %s returned %d=%q, written by %s which never committed (end: %q)", r.Prog.Name, res.Op, k, v, w.rec.Prog.Name, w.rec.EndErr))
+				} else {
+					viol("read-before-commit-point", fmt.Sprintf("reader %s %s returned %d=%q at logical time %d, written by %s whose commit was only installed at %d (Commit returned at %d)", r.Prog.Name, res.Op, k, v, res.At, w.rec.Prog.Name, w.commitPoint, w.rec.EndAt))
+				}
+				return
+			}
+		}
+		viol("phantom-value", fmt.Sprintf("reader %s %s returned %d=%q which nobody wrote", r.Prog.Name, res.Op, k, v))
+	}
 	for _, r := range env.recs {
 		if r == nil || r.Prog.Mode == sop.ForWriting {
 			continue
 		}
 		for _, res := range r.Results {
-			ok := false
-			for _, st := range states {
-				exp := st.Clone().Apply(res.Op, unique[res.Op.Store])
-				if txn.SameResult(res, exp) {
-					ok = true
-					break
-				}
+			if res.Err != "" {
+				continue
 			}
-			if !ok {
-				viol("dirty-read", fmt.Sprintf("reader %s %s observed found=%v val=%q count=%d scan=%v which matches no state built from committed writers (committed writers: %d)", r.Prog.Name, res.Op, res.Found, res.Val, res.Count, res.Scan, len(writers)))
+			switch res.Op.Kind {
+			case "get", "getnolock":
+				if res.Found {
+					judgeItem(r, res, res.Op.Store, res.Op.K, res.Val)
+				}
+			case "scan":
+				for _, it := range res.Scan {
+					judgeItem(r, res, res.Op.Store, it.K, it.V)
+				}
+			case "count":
+				// acceptable counts: initial + deltas of any subset of writers that reached their commit point
+				base := int64(len(initial[res.Op.Store]))
+				var deltas []int64
+				for _, w := range ws {
+					if w.commitPoint < 0 || w.commitPoint > res.At {
+						continue
+					}
+					var d int64
+					for _, wr := range w.rec.Results {
+						if wr.Op.Store != res.Op.Store || !wr.OK {
+							continue
+						}
+						switch wr.Op.Kind {
+						case "add", "addif":
+							d++
+						case "remove":
+							d--
+						}
+					}
+					deltas = append(deltas, d)
+				}
+				ok := false
+				for mask := 0; mask < 1<<len(deltas); mask++ {
+					c := base
+					for i, d := range deltas {
+						if mask&(1<<i) != 0 {
+							c += d
+						}
+					}
+					if c == res.Count {
+						ok = true
+					}
+				}
+				if !ok {
+					viol("dirty-count", fmt.Sprintf("reader %s %s returned %d at logical time %d; committed counts possible then: base %d with deltas %v of writers past their commit point", r.Prog.Name, res.Op, res.Count, res.At, base, deltas))
+				}
 			}
 		}
 	}
 }
 
-// replay re-runs one recorded schedule 5 times and prints the (compressed) trace and outcome.
+// commitPoints returns, per thread id, the logical time at which its last phase-2 registry block write
+// (after its priority log was written, before that log is removed) had executed.
+func commitPoints(trace []string) map[int]int {
+	out := map[int]int{}
+	inWin := map[int]bool{}
+	lastW := map[int]int{}
+	next := func(from int, tid string) int {
+		for j := from + 1; j < len(trace); j++ {
+			if strings.HasPrefix(trace[j], tid+":") {
+				return j
+			}
+		}
+		return len(trace)
+	}
+	for i, t := range trace {
+		parts := strings.SplitN(t, ":", 3)
+		if len(parts) < 3 {
+			continue
+		}
+		var tid int
+		fmt.Sscan(parts[0], &tid)
+		switch {
+		case parts[1] == "file" && strings.HasPrefix(parts[2], "WriteFile ") && strings.HasSuffix(parts[2], ".plg"):
+			inWin[tid] = true
+			delete(lastW, tid)
+		case parts[1] == "file" && strings.HasPrefix(parts[2], "Remove ") && strings.HasSuffix(parts[2], ".plg"):
+			if inWin[tid] {
+				if w, ok := lastW[tid]; ok {
+					out[tid] = w
+				}
+				inWin[tid] = false
+			}
+		case parts[1] == "dio" && strings.HasPrefix(parts[2], "WriteAt ") && inWin[tid]:
+			lastW[tid] = next(i, parts[0])
+		}
+	}
+	return out
+}
+
+// matchesPartialCommit: does the observation match the initial state with some SUBSET of the ops of
+// the committed writers applied (i.e. a partially installed commit)?
+func matchesPartialCommit(initial txn.Model, writers []*txn.Record, res txn.OpResult, unique map[string]bool) bool {
+	var ops []txn.Op
+	for _, w := range writers {
+		for _, r := range w.Results {
+			ops = append(ops, r.Op)
+		}
+	}
+	if len(ops) > 12 {
+		return false
+	}
+	for mask := 0; mask < 1<<len(ops); mask++ {
+		m := initial.Clone()
+		for i, o := range ops {
+			if mask&(1<<i) != 0 {
+				m.Apply(o, unique[o.Store])
+			}
+		}
+		if txn.SameResult(res, m.Apply(res.Op, unique[res.Op.Store])) {
+			return true
+		}
+	}
+	return false
+}
+
+// replay re-runs one recorded schedule 5 times and prints a condensed trace and the outcome.
 func replay(prop, path string, scs []*scenario) {
 	b, err := os.ReadFile(path)
 	if err != nil {
@@ -624,37 +839,20 @@ func replay(prop, path string, scs []*scenario) {
 		}
 		before := run.ViolationCount()
 		checkExecution(run, prop, sc, x, f.Replay.Schedule)
-		if run.ViolationCount() > before || i > 0 && run.ViolationCount() > 0 {
+		if run.ViolationCount() > before || (i > 0 && run.ViolationCount() > 0) {
 			fails++
 		}
 	}
 	re := strings.NewReplacer(sopenv.Dir, "W")
-	prev := ""
-	rep := 0
-	max := 400
-	if os.Getenv("REPLAY_MAX") != "" {
-		fmt.Sscan(os.Getenv("REPLAY_MAX"), &max)
-	}
-	printed := 0
+	prevTid := ""
 	for i, t := range first.Trace {
-		t = re.Replace(t)
-		key := t
-		if i >= 3 && re.Replace(first.Trace[i-3]) == t { // period-3 spin loops
-			rep++
-			continue
+		tid := strings.SplitN(t, ":", 2)[0]
+		key := strings.Contains(t, ".plg") || strings.Contains(t, "WriteAt") || strings.Contains(t, "storeinfo")
+		if tid != prevTid || key {
+			fmt.Printf("%4d %s\n", i, re.Replace(t))
 		}
-		if rep > 0 {
-			fmt.Printf("      ... %d repeated spin steps\n", rep)
-			rep = 0
-		}
-		_ = key
-		if printed < max {
-			fmt.Printf("%4d %s\n", i, t)
-			printed++
-		}
-		prev = t
+		prevTid = tid
 	}
-	_ = prev
 	env := first.Env.(*execEnv)
 	for _, r := range env.recs {
 		fmt.Println(recErr(r), "committed=", r != nil && r.Committed)
